@@ -314,7 +314,8 @@ Definition Q (Y : side) st (q : list event) : Prop :=
   ph st <> PStart /\ can_read (conn_of st (other Y)) = false /\ count_from (other Y) q = 0 /\ wait st <> WMsgHook Y.
 Definition E5 st : Prop :=
   (forall Y, eof_of st Y = true -> can_read (conn_of st Y) = false) /\
-  (ph st = PStart -> server_open (cf st) = false -> eof_s st = false).
+  (ph st = PStart -> server_open (cf st) = false -> eof_s st = false) /\
+  (wait st = WOpen -> server_open (cf st) = false).
 Definition I5 st (q : list event) (out : list cmd) : Prop :=
   E5 st /\ wait_ph_ok st /\ crashed st = false /\ wait st <> WErrorHook /\ forallb payload_only q = true /\
   (ph st = PStart -> waiting st = true \/ q = []) /\
@@ -380,13 +381,18 @@ Ltac solveQ :=
 
 Ltac solveE HE :=
   let E1 := fresh "E1" in let E2 := fresh "E2" in
-  destruct HE as [E1 E2]; unfold E5; simpl; split;
+  let E3 := fresh "E3" in
+  destruct HE as (E1 & E2 & E3); unfold E5; simpl; split; [|split];
   [ let Y := fresh "Y" in intros Y; pose proof (E1 Client); pose proof (E1 Server); destruct Y; simpl in *;
     repeat match goal with
     | H : negb _ = true |- _ => apply negb_true_iff in H
     | H : negb _ = false |- _ => apply negb_false_iff in H
     end; intuition congruence
-  | simpl in *; intuition congruence ].
+  | simpl in *; intuition congruence
+  | simpl in *; repeat match goal with
+    | H : negb _ = true |- _ => apply negb_true_iff in H
+    | H : negb _ = false |- _ => apply negb_false_iff in H
+    end; intuition congruence ].
 
 Ltac inv5 H := destruct H as (HE & Hp & Hc & Hne & Hq & Hn & Hl & HQC & HQS).
 
@@ -424,9 +430,10 @@ Proof.
       (apply (I5_extend _ _ _ _ _ _ H0); clear H0 HQC HQS Hl; [try (solveE HE)|..|solveQ|solveQ];
        unfold wait_ph_ok; simpl; auto; try discriminate; try (intros A; congruence); try (left; reflexivity)).
   - destruct err; [discriminate|].
-    unfold_layer. inversion Hr; subst; clear Hr.
-    apply (I5_extend _ _ _ _ _ _ H0); clear H0 HQC HQS Hl; [try (solveE HE)|..|solveQ|solveQ];
-      unfold wait_ph_ok; simpl; auto; try discriminate; try (intros A; congruence).
+    unfold_layer. simpl in Hr.
+    split_run Hr; inversion Hr; subst; clear Hr;
+    (apply (I5_extend _ _ _ _ _ _ H0); clear H0 HQC HQS Hl; [try (solveE HE)|..|solveQ|solveQ];
+      unfold wait_ph_ok; simpl; auto; try discriminate; try (intros A; congruence)).
   - congruence.
   - unfold_layer. inversion Hr; subst; clear Hr.
     apply (I5_extend _ _ _ _ _ _ H0); clear H0 HQC HQS Hl; [try (solveE HE)|..|solveQ|solveQ];
